@@ -41,4 +41,23 @@ func (s *Session) puback(p *packets.PubackPacket)
   modifies entries(s.pending)
   ensures acked-removed: !(p.MessageID in s.pending)
   ensures others-kept: forall k uint16 :: k != p.MessageID ==> ((k in s.pending) <==> old(k in s.pending)) && s.pending[k] == old(s.pending[k])
+
+// ---- C14: topic filter syntax (MQTT 3.1.1 section 4.7.1): a wildcard occupies an entire level and '#' is the last character ----
+lemma slashes-mono@n: forall s string; i int; n int :: 0 <= i && i <= n ==> slashes(s, i) <= slashes(s, n)
+pred wildAt(t string, k int) := t[k] == 43 || t[k] == 35
+pred ruleAt(t string, k int) := (t[k] == 35 ==> k == len(t) - 1) && (wildAt(t, k) ==> (k == 0 || t[k - 1] == 47) && (k == len(t) - 1 || t[k + 1] == 47))
+pred wellFormed(t string) := forall k int :: 0 <= k && k < len(t) ==> ruleAt(t, k)
+
+func splitTopic(topic string) (levels []string, ok bool)
+  flag ascii
+  flag paths=split
+  ensures accepts-exactly-well-formed-filters: ok <==> wellFormed(topic)
+  ensures rejected-has-no-levels: !ok ==> levels == nil
+  ensures one-level-per-separator: ok ==> len(levels) == slashes(topic, len(topic)) + 1
+  invariant[1] position: 0 <= levelStart && levelStart <= i && i <= len(topic) && (levelStart == 0 || topic[levelStart - 1] == 47)
+  invariant[1] count: levelsLoc == slashes(topic, i) && len(levels) == slashes(topic, len(topic)) + 1 && levels != nil
+  invariant[1] current-level-has-no-separator: forall k int :: levelStart <= k && k < i ==> topic[k] != 47
+  invariant[1] flag: wildCardFlag <==> (exists k int :: levelStart <= k && k < i && wildAt(topic, k))
+  invariant[1] hash-only-last: forall k int :: 0 <= k && k < i && topic[k] == 35 ==> k == len(topic) - 1
+  invariant[1] finished-levels-well-formed: forall k int :: 0 <= k && k < levelStart ==> ruleAt(topic, k)
 @*/
